@@ -7,9 +7,10 @@ from harness import tlc
 from harness.drivers import searcher as D
 from harness.validate import validate
 
-FLAGS = {"missing_key", "constant_changed", "wrong_type", "outside_domain", "initial_order", "repeat",
+FLAGS = {"missing_key", "constant_changed", "wrong_type", "outside_domain", "initial_order", "repeat", "failed_resuggested",
          "suggest_after_nothing_left", "none_premature", "scheduler_raised"}
-INV = ["AllKeysTypedInDomain", "ConstantsUnchanged", "InitialFirstInOrder", "NoRepeat", "NoneOnlyWhenExhausted", "ExactlyOnce"]
+INV = ["AllKeysTypedInDomain", "ConstantsUnchanged", "InitialFirstInOrder", "NoRepeat", "FailedNotResuggested", "NoneOnlyWhenExhausted",
+       "ExactlyOnce"]
 
 P2E = {
     "s1": [None, [], [[1, -1], [-1, 1], [1, -1]], [[-1, -1], [2, 0], [-1, -1]], [[3, 1]]],
@@ -49,7 +50,7 @@ def model_check(rep):
                 fd, path = tempfile.mkstemp(prefix="Searcher_MC_", suffix=".cfg")
                 os.close(fd)
                 tlc.write_cfg(path, spec="Spec", constants=dict(SpaceName=sp, P2EName=p, NoRep=norep), invariants=INV,
-                              constraints=["Bound"])
+                              constraints=["Bound"], view="MCView")
                 try:
                     r = tlc.run("Searcher_MC", path, workers=4, timeout=300)
                 finally:
@@ -59,13 +60,25 @@ def model_check(rep):
                     rep.violation({"check": "mc", "invariant": r.violated, "config": f"{sp}/{p}"}, {"trace": tlc.short_trace(r)})
 
 
-def drive(rep, kinds, hists, seed, tag, per_kind):
+# continuous spaces: initial configurations on the bounds of the domains (one abstract value per continuous domain, so
+# entries of one list differ in a finite coordinate)
+P2E_CONT = {
+    "sb": [None, [[0, 1]], [[1, 0]], [], [[1, 1]], [[0, 0]]],
+    "sd": [None, [[0, 1, 0], [1, 0, 2]], [[1, 1, 1], [-1, 0, 0]], []],
+}
+
+
+def drive(rep, kinds, hists, seed, tag, per_kind, p2es=None, flags=None):
     traces, meta = [], []
+    flags = FLAGS if flags is None else flags
     n = 0
+    P2E_ = p2es or P2E
     for kind in kinds:
         for j in range(per_kind):
-            name = list(P2E)[(j + n) % len(P2E)]
-            p2e = P2E[name][(j // len(P2E) + j) % len(P2E[name])]
+            name = list(P2E_)[(j + n) % len(P2E_)]
+            p2e = P2E_[name][(j // len(P2E_) + j) % len(P2E_[name])]
+            if kind.startswith("fifo_random_restrict"):
+                p2e = []        # (initial configurations outside the restriction are dropped by design: none are given)
             h = hists[(j * 7 + n) % len(hists)]
             ep = D.Episode(kind, name, p2e, seed + j)
             nfail = 0
@@ -93,7 +106,7 @@ def drive(rep, kinds, hists, seed, tag, per_kind):
         rep.count_actions(e["a"] for e in tr["ev"])
         for f in sorted(v.flags):
             counts[f] = counts.get(f, 0) + 1
-            if f in FLAGS:
+            if f in flags:
                 sig = {"check": "trace", "flag": f, "scheduler": meta[k]["kind"]}
                 if f in ("none_premature", "suggest_after_nothing_left"):
                     sig["space"] = meta[k]["space"]
@@ -115,16 +128,22 @@ def run(rep, tier, seed):
         "two constants; values are logged as indices into the domain's value list (-1 = not a member)",
         "no-repeat is required of random, grid, GP (single/multi-fidelity), HyperTune and synchronous-Hyperband searchers; "
         "DEHB, PBT exploration and regularised evolution are checked for membership / initial order only",
-        "continuous domains are not part of this campaign (see C07)",
+        "continuous domains (uniform / loguniform with bounds that do not survive the encoding round trip exactly, initial "
+        "configurations on the bounds) are one abstract value for the specification: 'a float inside the bounds'; no-repeat is "
+        "not judged on them",
     )
     model_check(rep)
     hists = histories(seed * 31 + 5, 60 if tier == "quick" else 400, 18 if tier == "quick" else 26)
-    fast = ["fifo_random", "fifo_random_dup", "fifo_grid", "hb_random", "hb_random_promo", "synchb", "dehb", "pbt", "regevo",
+    fast = ["fifo_random", "fifo_random_dup", "fifo_random_restrict_dup", "fifo_grid", "hb_random", "hb_random_promo", "synchb", "dehb", "pbt", "regevo",
             "hbt_pasha", "hbt_rush_stopping", "hbt_rush_promotion", "hbt_cost_promotion", "median", "moasha"]
     total = drive(rep, fast, hists, seed * 100, "model-free", 40 if tier == "quick" else 400)
     gp = ["fifo_bayesopt", "hb_bayesopt", "hb_hypertune"]
     c2 = drive(rep, gp, hists, seed * 100 + 7, "gp", 4 if tier == "quick" else 40)
     for k, v in c2.items():
+        total[k] = total.get(k, 0) + v
+    cont = ["fifo_random", "hb_random", "hb_random_promo", "synchb", "dehb", "pbt", "regevo", "hbt_pasha", "fifo_bayesopt", "hb_bayesopt"]
+    c3 = drive(rep, cont, hists, seed * 100 + 13, "continuous", 8 if tier == "quick" else 60, p2es=P2E_CONT)
+    for k, v in c3.items():
         total[k] = total.get(k, 0) + v
     rep.extra["flags_seen_in_traces"] = total
     rep.extra["histories_from_tlc"] = len(hists)
